@@ -56,6 +56,9 @@ func runCase(c *kit.Case) {
 		if r.Chance(1, 3) {
 			chOpts.LiveTransitionMaxPublicationLimit = r.Range(1, 4)
 		}
+		if c.Index%6 == 1 {
+			chOpts.StreamSize = 4 // half of the single-flight cases: positions fall out of the stream quickly
+		}
 	}
 	if r.Chance(1, 4) {
 		centrifuge.VerifSetMapOrdered(&chOpts, true)
@@ -67,6 +70,8 @@ func runCase(c *kit.Case) {
 		ClientStaleCloseDelay:           time.Hour,
 		ClientPresenceUpdateInterval:    time.Second,
 		ClientChannelPositionCheckDelay: 2 * time.Second,
+		// concurrent readers of one channel then share broker reads (state, stream and history)
+		UseSingleFlight: c.Index%3 == 1,
 		Map: centrifuge.MapConfig{GetMapChannelOptions: func(string) centrifuge.MapChannelOptions { return chOpts }},
 	}, func(n *centrifuge.Node) {
 		n.OnConnecting(func(context.Context, centrifuge.ConnectEvent) (centrifuge.ConnectReply, error) {
@@ -192,6 +197,10 @@ func runCase(c *kit.Case) {
 		reconnect := r.Chance(1, 2)
 		liveFor := time.Duration(r.Range(5, 80)) * time.Millisecond
 		away := time.Duration(r.Range(5, 60)) * time.Millisecond
+		if c.Index%6 == 1 {
+			reconnect = true
+			away += time.Duration(r.Range(0, 100)) * time.Millisecond
+		}
 		viaStream := r.Bool()
 		proto := kit.Pick(r, []centrifuge.ProtocolType{centrifuge.ProtocolTypeJSON, centrifuge.ProtocolTypeProtobuf})
 		mk := func() *kit.Conn {
@@ -252,7 +261,10 @@ func runCase(c *kit.Case) {
 			break
 		}
 	}
-	sig := fmt.Sprintf("mode%d ss%d lt%d", mode, chOpts.StreamSize, chOpts.LiveTransitionMaxPublicationLimit)
+	sig := fmt.Sprintf("mode%d ss%d lt%d sf%v", mode, chOpts.StreamSize, chOpts.LiveTransitionMaxPublicationLimit, c.Index%3 == 1)
+	if c.Index%3 == 1 {
+		c.Count("cases_with_single_flight", 1)
+	}
 	for _, sj := range subjects {
 		if sj.cm == nil {
 			continue
